@@ -180,6 +180,29 @@ func runC05(rep *Report, r *Rng, tier string) {
 			rep.Count("single-value-4096-boundary")
 		}
 	}
+	// a leftover file next to the output (<output>.tmp holding an old index) must not influence the new index
+	for k := 0; k < 2; k++ {
+		d := genDataSpec(r, 300, false)
+		c := genIdxCase(r, d, 6, 2, true, false)
+		c.Writer = "mem"
+		c.StaleTmp = true
+		runIdxCase(o, c, rep, flagsFor("C05"))
+		rep.Count("stale-neighbour-file")
+	}
+	// more than 65536 distinct values (not a multiple of 16 or 1000)
+	{
+		n := 70001
+		d := &DataSpec{Seed: r.U64(), NRows: n, Cols: []ColSpec{{Name: hx("id"), NVals: 1, Dist: "unique", Style: "ascii"}, {Name: hx("g"), NVals: 3, Dist: "random", Style: "ascii"}}}
+		for _, w := range []string{"mem", "big"} {
+			if w == "big" && tier != "thorough" {
+				continue
+			}
+			E := func(v int) *Ex { return &Ex{Op: "E", C: hx("id"), V: hx(fmt.Sprint(v))} }
+			c := &IdxCase{Data: d, Writer: w, Cache: -1, Queries: []QCase{{E: E(0)}, {E: E(65535)}, {E: E(65536)}, {E: E(69999)}, {E: E(70000), GB: []string{hx("g")}}, {E: &Ex{Op: "O", Kids: []*Ex{E(69984), E(69985), E(69990), E(69995), E(69998)}}}}}
+			runIdxCase(o, c, rep, flagsFor("C05"))
+			rep.Count("more-than-65536-values")
+		}
+	}
 	// both writers on the same rows give the same file contents (keys) and answers: batch boundaries
 	sizes := []int{1001, 2500}
 	if tier == "thorough" {
